@@ -315,8 +315,12 @@ func TestVerifReaderTrace(t *testing.T) {
 					n = r.Len() + 1 + rng.Intn(3)
 				case 2:
 					// lengths beyond 16 and 32 bits, some of them small again when truncated to 16 or 32 bits
-					big := []int{1 << 16, 1<<16 + 1, 1 << 31, 1<<31 + 2, 1 << 32, 1<<32 + 1, 2<<32 + 3, 1<<32 + r.Len(), 1<<48 + 1, 1 << 62, 1<<63 - 1}
-					n = big[rng.Intn(len(big))]
+					big := []int64{1 << 16, 1<<16 + 1, 1 << 31, 1<<31 + 2, 1 << 32, 1<<32 + 1, 2<<32 + 3, 1<<32 + int64(r.Len()), 1<<48 + 1, 1 << 62, 1<<63 - 1}
+					v := big[rng.Intn(len(big))]
+					if int64(int(v)) != v {
+						v = int64(^uint(0) >> 1) // a 32-bit build: the largest int there is
+					}
+					n = int(v)
 				default:
 					n = rng.Intn(r.Len() + 2)
 				}
